@@ -13,6 +13,7 @@ import (
 	"path/filepath"
 	"runtime/debug"
 	"runtime/pprof"
+	"sort"
 	"strconv"
 	"strings"
 	"time"
@@ -44,15 +45,16 @@ func parseCfg(s string) (c cfg, err error) {
 	return c, err
 }
 
-// configs returns the parameter choices of a tier.  thorough = the full
-// product maxAttempts{1,2,3} x blockDur{2 min,15 min} x TTL{1 h,3 d}; quick =
-// six of the twelve, every (maxAttempts, blockDur) pair once and every pair of
-// values of any two parameters at least once.
-func configs(quick bool) (l []cfg) {
-	const (
-		b2, b15 = 2 * 60, 15 * 60
-		t1h, t3d = 60 * 60, 3 * day
-	)
+const (
+	b2, b15  = 2 * 60, 15 * 60
+	t1h, t3d = 60 * 60, 3 * day
+)
+
+// crossConfigs returns the parameter choices of the cross pass.  thorough =
+// the full product maxAttempts{1,2,3} x blockDur{2 min,15 min} x TTL{1 h,3 d};
+// quick = six of the twelve: every (maxAttempts, blockDur) pair once and every
+// pair of values of any two parameters at least once.
+func crossConfigs(quick bool) (l []cfg) {
 	if quick {
 		return []cfg{{1, b2, t1h}, {1, b15, t3d}, {2, b2, t3d}, {2, b15, t1h}, {3, b2, t1h}, {3, b15, t3d}}
 	}
@@ -103,32 +105,133 @@ func advances(cf cfg) []int64 {
 	return []int64{1, 59, 61, cf.Block - 1, cf.Block + 1, cf.TTL - 1, cf.TTL + 1, day}
 }
 
-// alphabet returns the operations for cf, rotated by rot so that the level-1
-// subtrees that close at once (request/logout/restart on the empty state) fall
-// to different shards for different configurations.
-func alphabet(cf cfg, rot int) (ops []op) {
+// alphabet returns the operations of a pass for cf, simplest first.
+//
+//	X (cross):    everything, 17 operations.
+//	T (throttle): logins from both addresses, the clock steps around the
+//	              1-minute window and the block period, restart; 10 operations.
+//	S (sessions): one login, request/logout with both cookies, the clock steps
+//	              around the day boundary, the TTL and a day, restart; 11 operations.
+func alphabet(pass string, cf cfg) (ops []op) {
 	c := cf.String()
-	for a := 0; a < 2; a++ {
-		ops = append(ops, op{K: "bad", A: a, C: c})
+	adv := func(ds ...int64) {
+		for _, d := range ds {
+			ops = append(ops, op{K: "adv", D: d, C: c})
+		}
 	}
-	for _, d := range advances(cf)[:4] {
-		ops = append(ops, op{K: "adv", D: d, C: c})
+	two := func(k string) {
+		for a := 0; a < 2; a++ {
+			ops = append(ops, op{K: k, A: a, C: c})
+		}
 	}
-	for a := 0; a < 2; a++ {
-		ops = append(ops, op{K: "good", A: a, C: c})
+	switch pass {
+	case "T":
+		two("bad")
+		two("good")
+		adv(1, 59, 61, cf.Block-1, cf.Block+1)
+		ops = append(ops, op{K: "restart", C: c})
+	case "S":
+		ops = append(ops, op{K: "good", A: 0, C: c})
+		two("req")
+		two("out")
+		adv(59, 61, cf.TTL-1, cf.TTL+1, day)
+		ops = append(ops, op{K: "restart", C: c})
+	default:
+		two("bad")
+		two("good")
+		two("req")
+		two("out")
+		adv(advances(cf)...)
+		ops = append(ops, op{K: "restart", C: c})
 	}
-	for i := 0; i < nCookies; i++ {
-		ops = append(ops, op{K: "req", A: i, C: c})
+	return ops
+}
+
+// splitLevel is the history length at which a BFS is cut into parts.
+const splitLevel = 2
+
+// unit is one BFS: a pass on one configuration; with K > 1 only the states
+// reached by histories of length splitLevel whose key hash is J modulo K are
+// extended (every part executes all shorter histories itself).
+type unit struct {
+	Pass  string
+	Cf    cfg
+	Depth int
+	J, K  int
+}
+
+// weight estimates the cost of a unit (measured growth of the number of
+// states per level), for dealing units to processes.
+func (u unit) weight() float64 {
+	g, n := 5.3, 17.0
+	switch u.Pass {
+	case "T":
+		g, n = 4.3, 12
+	case "S":
+		g, n = 3.8, 11
 	}
-	for _, d := range advances(cf)[4:] {
-		ops = append(ops, op{K: "adv", D: d, C: c})
+	w := n
+	for i := 1; i < u.Depth; i++ {
+		w *= g
 	}
-	ops = append(ops, op{K: "restart", C: c})
-	for i := 0; i < nCookies; i++ {
-		ops = append(ops, op{K: "out", A: i, C: c})
+	return w/float64(u.K) + n*n
+}
+
+// deal assigns units to n processes, heaviest first to the least loaded.
+func deal(us []unit, n int) (mine [][]unit) {
+	mine = make([][]unit, n)
+	load := make([]float64, n)
+	idx := make([]int, len(us))
+	for i := range idx {
+		idx[i] = i
 	}
-	rot %= len(ops)
-	return append(ops[rot:len(ops):len(ops)], ops[:rot]...)
+	sort.SliceStable(idx, func(a, b int) bool { return us[idx[a]].weight() > us[idx[b]].weight() })
+	for _, i := range idx {
+		best := 0
+		for p := 1; p < n; p++ {
+			if load[p] < load[best] {
+				best = p
+			}
+		}
+		mine[best] = append(mine[best], us[i])
+		load[best] += us[i].weight()
+	}
+	return mine
+}
+
+// plan lists the work units of a tier.  depth maps pass -> depth bound, split
+// maps pass -> number of parts one BFS is cut into by its first operation.
+func plan(quick bool, depth, split map[string]int) (us []unit) {
+	add := func(pass string, cf cfg) {
+		k := split[pass]
+		if k < 1 || depth[pass] <= splitLevel {
+			k = 1
+		}
+		for j := 0; j < k; j++ {
+			us = append(us, unit{Pass: pass, Cf: cf, Depth: depth[pass], J: j, K: k})
+		}
+	}
+	// Throttling does not read the session TTL: every (maxAttempts, blockDur).
+	for _, m := range []int{1, 2, 3} {
+		for _, b := range []int64{b2, b15} {
+			add("T", cfg{m, b, t1h})
+		}
+	}
+	// Sessions do not read the throttling parameters: every TTL.
+	for _, t := range []int64{t1h, t3d} {
+		add("S", cfg{2, b2, t})
+	}
+	for _, cf := range crossConfigs(quick) {
+		add("X", cf)
+	}
+	return us
+}
+
+func tierParams(quick bool) (depth, split map[string]int) {
+	if quick {
+		return map[string]int{"T": 5, "S": 6, "X": 4}, map[string]int{"T": 2, "S": 4, "X": 2}
+	}
+	return map[string]int{"T": 7, "S": 8, "X": 5}, map[string]int{"T": 4, "S": 8, "X": 2}
 }
 
 // ---- reference model -----------------------------------------------------------
@@ -579,13 +682,6 @@ func silence() {
 	log.SetLevel(log.ERROR)
 }
 
-func depthFor(quick bool) int {
-	if quick {
-		return 6
-	}
-	return 9
-}
-
 func run(c *lib.Ctx) {
 	silence()
 	ctx = c
@@ -595,35 +691,65 @@ func run(c *lib.Ctx) {
 		_ = pprof.StartCPUProfile(f)
 		defer pprof.StopCPUProfile()
 	}
-	cfgs := configs(c.Quick())
-	depth := depthFor(c.Quick())
-	if s := os.Getenv("VERIF_C12_DEPTH"); s != "" {
-		if v, err := strconv.Atoi(s); err == nil && v > 0 {
-			depth = v
+	depth, split := tierParams(c.Quick())
+	// Development switch: VERIF_C12_PLAN="T=5/1,S=6/2,X=0/1" (depth/split; depth 0 = skip the pass).
+	if s := os.Getenv("VERIF_C12_PLAN"); s != "" {
+		for _, f := range strings.Split(s, ",") {
+			var p string
+			var d, k int
+			if _, err := fmt.Sscanf(strings.Replace(strings.Replace(f, "=", " ", 1), "/", " ", 1), "%s %d %d", &p, &d, &k); err == nil {
+				depth[p], split[p] = d, k
+			}
 		}
 	}
-	global := c.Deadline
-	defer func() { c.Deadline = global }()
-	var names []string
-	for i, cf := range cfgs {
-		names = append(names, cf.String())
+	var units []unit
+	for _, u := range plan(c.Quick(), depth, split) {
+		if u.Depth > 0 {
+			units = append(units, u)
+		}
+	}
+	shardI, shardN, global := c.ShardI, c.ShardN, c.Deadline
+	defer func() { c.ShardI, c.ShardN, c.Deadline = shardI, shardN, global }()
+	if shardN < 1 {
+		shardI, shardN = 0, 1
+	}
+	mine := deal(units, shardN)[shardI]
+	// lib.BFS must not apply its own level-1 split inside a unit.
+	c.ShardI, c.ShardN = 0, 1
+	for i, u := range mine {
 		if !global.IsZero() {
-			// An equal share of what is left for every remaining configuration.
+			// An equal share of what is left for every remaining unit.
 			left := time.Until(global)
 			if left < 0 {
 				left = 0
 			}
-			c.Deadline = time.Now().Add(left / time.Duration(len(cfgs)-i))
+			c.Deadline = time.Now().Add(left / time.Duration(len(mine)-i))
 		}
-		cf := cf
-		ops := alphabet(cf, 3*i)
-		b := &lib.BFS[op]{C: c, Ops: ops, MaxDepth: depth, Workers: 1, Confirm: true,
-			Exec: func(h []op) lib.Step { return exec(cf, h) }}
+		u := u
+		t0 := time.Now()
+		b := &lib.BFS[op]{C: c, Ops: alphabet(u.Pass, u.Cf), MaxDepth: u.Depth, Workers: 1, Confirm: true,
+			Exec: func(h []op) lib.Step {
+				st := exec(u.Cf, h)
+				if u.K > 1 && len(h) == splitLevel && st.VKey == "" && st.Key != "" && lib.Hash(st.Key)%uint64(u.K) != uint64(u.J) {
+					// Another part extends this state.
+					return lib.Step{Outcome: st.Outcome}
+				}
+				return st
+			}}
 		b.Run()
-		c.Count("config_runs", 1)
+		c.Count("bfs_runs", 1)
+		if os.Getenv("VERIF_C12_TIMES") != "" {
+			fmt.Fprintf(os.Stderr, "shard %d unit %s %s %d/%d depth %d: %.1fs\n", shardI, u.Pass, u.Cf, u.J, u.K, u.Depth, time.Since(t0).Seconds())
+		}
 	}
-	c.Note("configurations", "maxAttempts/blockSeconds/ttlSeconds: "+strings.Join(names, " "))
-	c.Note("alphabet", fmt.Sprintf("%d operations per configuration: bad-login(addr0 wrong password, spoofed proxy headers | addr1 unknown user), good-login(addr0|addr1), request(cookie0|1), logout(cookie0|1), advance{1,59,61,block-1,block+1,ttl-1,ttl+1,86400 s}, restart; depth bound %d", len(alphabet(cfgs[0], 0)), depth))
+	c.ShardI, c.ShardN = shardI, shardN
+	var names []string
+	for _, cf := range crossConfigs(c.Quick()) {
+		names = append(names, cf.String())
+	}
+	c.Note("plan", fmt.Sprintf("pass T (throttle, %d operations, depth %d) on maxAttempts{1,2,3} x blockDur{120,900 s} with TTL 3600 s; pass S (sessions, %d operations, depth %d) on TTL{3600,259200 s} with maxAttempts 2, blockDur 120 s; pass X (cross, %d operations, depth %d) on maxAttempts/blockSeconds/ttlSeconds %s; %d BFS runs over %d processes",
+		len(alphabet("T", cfg{1, b2, t1h})), depth["T"], len(alphabet("S", cfg{1, b2, t1h})), depth["S"], len(alphabet("X", cfg{1, b2, t1h})), depth["X"], strings.Join(names, " "), len(units), shardN))
+	c.Note("alphabet", "bad-login(addr0: wrong password + proxy headers naming addr1 | addr1: unknown user), good-login(addr0|addr1), request(cookie0|1), logout(cookie0|1), advance{1,59,61,block-1,block+1,ttl-1,ttl+1,86400 s}, restart; cookie i = i-th session cookie issued in the history")
 }
 
 func replay(c *lib.Ctx, raw json.RawMessage) string {
@@ -667,7 +793,7 @@ func main() {
 				"distinct_nontrivial":           m.Distinct["nontrivial"],
 				"distinct_outcomes":             m.Distinct["outcomes"],
 				"max_depth":                     m.Maxes["max_depth"],
-				"config_runs":                   m.Counters["config_runs"],
+				"bfs_runs":                      m.Counters["bfs_runs"],
 				"skipped_boundary_landings":     m.Counters["skipped_boundary_landings"],
 				"rule": "BFS over timed histories (failed/successful login from 2 peer addresses, request/logout with the 1st/2nd issued cookie, 8 clock steps straddling the 1-minute window, the block period, the session TTL and a day, restart = Close + InitAuth with a fresh rate limiter on the same sessions.db) executed on the real handleLogin, handleLogout, optionalAuth, InitAuth and authRateLimiter under the virtual clock, for every configuration listed in note_configurations; every (shard, configuration) pair is one BFS, sharded by the first operation. A state is (time of day, failed-attempt table, session map, sessions.db content, model). Oracle after every step: status 429+Retry-After/403/200+cookie against the per-address (count, windowEnd) automaton; authentication of each cookie against two-sided session bounds (must before created+TTL, must not after logout / lastUse+TTL / once seen expired, also across restart); no session token in the tables that no response delivered. A clock step that would land exactly on a model boundary is not taken (skipped_boundary_landings). non-trivial = blocked login, 2nd+ or blocking failure, success that clears a record, request/logout with an issued cookie, restart with sessions",
 			}
